@@ -598,6 +598,164 @@ theorem cloud (hom : Bool) (eig : Mat (m + 2) ℝ → EigSym (m + 2) ℝ) (knn :
 
 end Cloud
 
+/-! ## Histories: one estimator object and one caller-owned kd-tree serve many calls
+
+The overloads `compute(points, pointsKdTree, ...)` run through a tree the caller keeps, and an estimator object is
+reused from call to call; both have data members that outlive a call (`Normals.lean`, "Objects that outlive a call").
+The theorems of this section say that nothing of that survives into a result: for EVERY scalar type (no arithmetic is
+involved), every eigen-solver oracle and every k-NN oracle that returns `k` indices per query — the `length` clause of
+`IsKnn`, the only thing needed — the reports of a call are `computeAll` of (points, k) of THAT call, whatever the
+estimator's buffers held before and whatever sequence of tree constructions, estimator constructions and estimations
+preceded it.  (A query that returned fewer than `k` indices would leave the tail of `neighborIndexes_` as earlier calls
+— or the constructor — left it: `overwrite`; the hypothesis is exactly what excludes that.) -/
+
+section History
+variable {α : Type} [Add α] [Sub α] [Mul α] [Div α] [Neg α] [LT α] [DecidableLT α] [NatCast α] [Trans α] {m : Nat}
+
+/-- `estimate` is `report` applied to the decomposition of the neighbourhood covariance -/
+theorem estimate_eq_report (hom : Bool) (eig : Mat (m + 2) α → EigSym (m + 2) α) (nb : List (Vec (m + 2) α))
+    (p : Vec (m + 2) α) : estimate hom eig nb p = report hom (eig (covTab nb)) p := rfl
+
+/-- a query that finds `k` neighbours overwrites everything the loops of `planeEstimation_` read -/
+theorem take_overwrite (res buf : List Nat) (k : Nat) (h : res.length = k) : (overwrite res buf).take k = res := by
+  subst h; simp [overwrite]
+
+/-- **planeEstimation_eig** — after `planeEstimation_` the estimator holds the decomposition of the covariance of the
+    neighbours found by THIS query, whatever its buffers held before; `k` is unchanged -/
+theorem planeEstimation_eig (eig : Mat (m + 2) α → EigSym (m + 2) α) (knn : Nat → List Nat)
+    (pts : Array (Vec (m + 2) α)) (e : Estimator (m + 2) α) (i : Nat) (h : (knn i).length = e.k) :
+    (planeEstimation eig knn pts e i).eig = eig (covTab ((knn i).map fun j => pts.getD j (fun _ => Normals.zero))) ∧
+    (planeEstimation eig knn pts e i).k = e.k := by
+  simp only [planeEstimation, take_overwrite _ _ _ h, and_self]
+
+private theorem computeS_aux (hom : Bool) (eig : Mat (m + 2) α → EigSym (m + 2) α) (knn : Nat → List Nat)
+    (pts : Array (Vec (m + 2) α)) (k : Nat) (hk : ∀ i, i < pts.size → (knn i).length = k) (l : List Nat)
+    (hl : ∀ i ∈ l, i < pts.size) (e : Estimator (m + 2) α) (he : e.k = k) (out : Array (Out (m + 2) α)) :
+    (l.foldl (fun (acc : Estimator (m + 2) α × Array (Out (m + 2) α)) i =>
+        let e' := planeEstimation eig knn pts acc.1 i
+        (e', acc.2.push (report hom e'.eig (pts.getD i (fun _ => Normals.zero))))) (e, out)).2.toList =
+      out.toList ++ l.map (fun i =>
+        estimate hom eig ((knn i).map fun j => pts.getD j (fun _ => Normals.zero)) (pts.getD i (fun _ => Normals.zero))) ∧
+    (l.foldl (fun (acc : Estimator (m + 2) α × Array (Out (m + 2) α)) i =>
+        let e' := planeEstimation eig knn pts acc.1 i
+        (e', acc.2.push (report hom e'.eig (pts.getD i (fun _ => Normals.zero))))) (e, out)).1.k = k := by
+  induction l generalizing e out with
+  | nil => simp [he]
+  | cons i is ih =>
+    have hi : (knn i).length = e.k := by rw [he]; exact hk i (hl i List.mem_cons_self)
+    obtain ⟨h1, h2⟩ := planeEstimation_eig eig knn pts e i hi
+    simp only [List.foldl_cons, List.map_cons]
+    have := ih (fun j hj => hl j (List.mem_cons_of_mem _ hj)) (planeEstimation eig knn pts e i) (by rw [h2, he])
+      (out.push (report hom (planeEstimation eig knn pts e i).eig (pts.getD i (fun _ => Normals.zero))))
+    rw [this.1, this.2, h1, estimate_eq_report]
+    simp
+
+/-- **computeS_eq_computeAll** — one call on an estimator object in ANY state `e` (fresh, or left behind by earlier
+    calls with other clouds, other trees): the reports are those of the stateless `computeAll` (the object the other
+    theorems of this file are about), and the object keeps its `k` -/
+theorem computeS_eq_computeAll (hom : Bool) (eig : Mat (m + 2) α → EigSym (m + 2) α) (knn : Nat → List Nat)
+    (pts : Array (Vec (m + 2) α)) (e : Estimator (m + 2) α) (hk : ∀ i, i < pts.size → (knn i).length = e.k) :
+    (computeS hom eig knn pts e).2.toList = computeAll hom eig knn pts ∧ (computeS hom eig knn pts e).1.k = e.k := by
+  have := computeS_aux hom eig knn pts e.k hk (List.range pts.size) (fun i hi => List.mem_range.mp hi) e rfl #[]
+  simpa [computeS, computeAll] using this
+
+/-- the session after a list of operations -/
+def runOps (hom : Bool) (eig : Mat (m + 2) α → EigSym (m + 2) α)
+    (knn : Array (Vec (m + 2) α) → Nat → Nat → List Nat) (s : Session (m + 2) α) (ops : List (Op (m + 2) α)) :
+    Session (m + 2) α :=
+  ops.foldl (fun s o => (s.step hom eig knn o).1) s
+
+/-- what a history says about the objects, read off the operations alone: the point set of the last tree built and the
+    `k` of the last estimator constructed -/
+def book (b : Option (Array (Vec (m + 2) α)) × Option Nat) (ops : List (Op (m + 2) α)) :
+    Option (Array (Vec (m + 2) α)) × Option Nat :=
+  ops.foldl (fun b o => match o with
+    | .setCloud pts => (some pts, b.2)
+    | .setEst k => (b.1, some k)
+    | .use => b) b
+
+/-- the k-NN oracle answers every query of the domain with `k` indices (the `length` clause of `IsKnn`) -/
+def KnnLength (knn : Array (Vec (m + 2) α) → Nat → Nat → List Nat) : Prop :=
+  ∀ pts k i, k < pts.size → i < pts.size → (knn pts k i).length = k
+
+private theorem step_book (hom : Bool) (eig : Mat (m + 2) α → EigSym (m + 2) α)
+    (knn : Array (Vec (m + 2) α) → Nat → Nat → List Nat) (hknn : KnnLength knn) (s : Session (m + 2) α)
+    (o : Op (m + 2) α) :
+    ((s.step hom eig knn o).1.cloud, (s.step hom eig knn o).1.est.map (·.k)) = book (s.cloud, s.est.map (·.k)) [o] := by
+  cases o with
+  | setCloud pts => simp [Session.step, book]
+  | setEst k => simp [Session.step, book, Estimator.new]
+  | use =>
+    simp only [book, List.foldl_cons, List.foldl_nil, Session.step]
+    split
+    · rename_i pts e hc he
+      split
+      · rename_i hpre
+        have := (computeS_eq_computeAll hom eig (knn pts e.k) pts e (fun i hi => hknn pts e.k i hpre.2 hi)).2
+        simp [hc, he, this]
+      · rfl
+    · rfl
+
+/-- **history** — for every list of operations, from any session: the objects are what the operations say (the point
+    set of the last `setCloud`, the `k` of the last `setEst`); nothing else about the past is visible in them -/
+theorem history (hom : Bool) (eig : Mat (m + 2) α → EigSym (m + 2) α)
+    (knn : Array (Vec (m + 2) α) → Nat → Nat → List Nat) (hknn : KnnLength knn) (s : Session (m + 2) α)
+    (ops : List (Op (m + 2) α)) :
+    ((runOps hom eig knn s ops).cloud, (runOps hom eig knn s ops).est.map (·.k)) = book (s.cloud, s.est.map (·.k)) ops := by
+  induction ops generalizing s with
+  | nil => rfl
+  | cons o os ih =>
+    have h1 := step_book hom eig knn hknn s o
+    have h2 := ih (s.step hom eig knn o).1
+    simp only [runOps, book, List.foldl_cons, List.foldl_nil] at h1 h2 ⊢
+    rw [h2, h1]
+
+/-- **use_after_history** — the reports of an estimation made after ANY history depend only on the point set and the
+    `k` in force at that call: they are `computeAll` on (points, k); earlier estimations through the same tree with
+    other `k`, earlier uses of the same estimator on other point sets, and their order leave no trace -/
+theorem use_after_history (hom : Bool) (eig : Mat (m + 2) α → EigSym (m + 2) α)
+    (knn : Array (Vec (m + 2) α) → Nat → Nat → List Nat) (hknn : KnnLength knn)
+    (ops : List (Op (m + 2) α)) (pts : Array (Vec (m + 2) α)) (k : Nat)
+    (hb : book (none, none) ops = (some pts, some k)) (hpre : 0 < k ∧ k < pts.size) :
+    (((runOps hom eig knn {} ops).step hom eig knn .use).2).map Array.toList =
+      some (computeAll hom eig (knn pts k) pts) := by
+  have h := history hom eig knn hknn {} ops
+  rw [show (({} : Session (m + 2) α).cloud, ({} : Session (m + 2) α).est.map (·.k)) = (none, none) from rfl, hb] at h
+  have hc : (runOps hom eig knn {} ops).cloud = some pts := congrArg Prod.fst h
+  have he : (runOps hom eig knn {} ops).est.map (·.k) = some k := congrArg Prod.snd h
+  obtain ⟨e, hee, hek⟩ := Option.map_eq_some_iff.mp he
+  unfold Session.step
+  simp only [hc, hee]
+  rw [if_pos (by rw [hek]; exact hpre)]
+  simp only [Option.map_some]
+  rw [hek, (computeS_eq_computeAll hom eig (knn pts k) pts e
+    (fun i hi => by rw [hek]; exact hknn pts k i hpre.2 hi)).1]
+
+end History
+
+/-- **use_after_history_meets_property** — over `ℝ`: every point's report of an estimation made after any history of
+    tree constructions, estimator constructions and estimations meets the property (`cloud`), for every k-NN oracle
+    meeting `IsKnn` on the cloud of that call and every eigen-solver oracle meeting `IsEigSym` on its neighbourhoods -/
+theorem use_after_history_meets_property {m : Nat} (hom : Bool) (eig : Mat (m + 2) ℝ → EigSym (m + 2) ℝ)
+    (knn : Array (Vec (m + 2) ℝ) → Nat → Nat → List Nat) (hlen : KnnLength knn)
+    (ops : List (Op (m + 2) ℝ)) (pts : Array (Vec (m + 2) ℝ)) (k : Nat)
+    (hb : book (none, none) ops = (some pts, some k)) (hpre : 0 < k ∧ k < pts.size)
+    (hknn : IsKnn k pts (knn pts k))
+    (heig : ∀ i, i < pts.size → IsEigSym (cov (neighbourhood (knn pts k) pts i)) (eig (cov (neighbourhood (knn pts k) pts i))))
+    (i : Nat) (hi : i < pts.size) :
+    ∃ outs o, ((runOps hom eig knn {} ops).step hom eig knn .use).2 = some outs ∧ outs.toList[i]? = some o ∧
+      dot o.normal o.normal = 1 ∧
+      (hom = true ∨ pts.getD i (fun _ => Normals.zero) ≠ 0 → dot o.normal (pts.getD i (fun _ => Normals.zero)) ≤ 0) ∧
+      (∀ v : Vec (m + 2) ℝ, dot v v = 1 →
+        o.normal ⬝ᵥ (Matrix.of (cov (neighbourhood (knn pts k) pts i)) *ᵥ o.normal) ≤
+          v ⬝ᵥ (Matrix.of (cov (neighbourhood (knn pts k) pts i)) *ᵥ v)) ∧
+      (0 < sumFin (eig (cov (neighbourhood (knn pts k) pts i))).vals →
+        0 ≤ o.curvature ∧ o.curvature ≤ 1 / ((m + 2 : Nat) : ℝ)) := by
+  have h := use_after_history hom eig knn hlen ops pts k hb hpre
+  obtain ⟨outs, ho, hl⟩ := Option.map_eq_some_iff.mp h
+  obtain ⟨o, h1, h2⟩ := cloud hom eig (knn pts k) k pts hknn heig i hi
+  exact ⟨outs, o, ho, by rw [hl]; exact h1, h2⟩
+
 /-! ## Non-vacuity: a concrete neighbourhood and a concrete decomposition meeting the contract -/
 
 section Examples
@@ -639,6 +797,17 @@ example : (estimate (m := 0) false (fun _ => exEig) exNb ![1, 1]).normal = ![0, 
 /-- a rotation (quarter turn) meets the hypothesis of `rotation_equivariant` -/
 example : (!![0, -1; 1, 0] : Matrix (Fin 2) (Fin 2) ℝ)ᵀ * !![0, -1; 1, 0] = 1 := by
   ext i j; fin_cases i <;> fin_cases j <;> simp [Matrix.mul_apply, Fin.sum_univ_two]
+
+/-- the hypothesis of the history theorems is satisfiable: an oracle answering every query with `k` indices -/
+example : KnnLength (α := ℝ) (m := 0) (fun _ k _ => List.range k) := by
+  intro pts k i _ _; simp
+
+/-- a concrete history (the one of the seeded change c09b and more): one tree used by estimators with 5, then 20
+    neighbours, a second tree used by the same estimator, a third estimator with 3 — its book is the last cloud and the
+    last `k`, so `use_after_history` applies to the estimation that follows -/
+example (p q : Array (Vec 2 ℝ)) :
+    book (m := 0) (none, none) [.setCloud p, .setEst 5, .use, .setEst 20, .use, .setCloud q, .use, .setEst 3] =
+      (some q, some 3) := rfl
 
 end Examples
 
